@@ -170,15 +170,17 @@ CLASS_FLAG = {"Bool": "BP_TYPE_BOOL", "Int": "BP_TYPE_INT", "Uint": "BP_TYPE_UIN
 CLASS_MACRO = {"Bool": "BpBool", "Int": "BpInt", "Uint": "BpUint", "Byte": "BpByte", "Enum": "BpEnum", "Alias": "BpAlias", "Array": "BpArray", "Message": "BpMessage"}
 
 # (function, switch subject text, domain, expected handler per class kind)
+# (function, dispatch subject as a value over the parameters, domain, expected handler per class kind)
 SWITCHES = [
     ("BpEndecodeMessageField", "descriptor.type.flag", "FieldType", "endecode"),
     ("BpEndecodeAlias", "descriptor.to.flag", "AliasTarget", "endecode"),
-    ("BpEndecodeArray", "flag", "ElemType", "endecode"),
-    ("BpJsonFormatMessageField", "flag", "FieldType", "json"),
-    ("BpJsonFormatAlias", "flag", "AliasTarget", "json"),
-    ("BpJsonFormatArray", "element_flag", "ElemType", "json"),
+    ("BpEndecodeArray", "descriptor.element_type.flag", "ElemType", "endecode"),
+    ("BpJsonFormatMessageField", "descriptor.type.flag", "FieldType", "json"),
+    ("BpJsonFormatAlias", "descriptor.to.flag", "AliasTarget", "json"),
+    ("BpJsonFormatArray", "descriptor.element_type.flag", "ElemType", "json"),
     ("BpJsonFormatBaseType", "flag", "BaseLeaf", "jsonbase"),
 ]
+HANDLER_CALLS = ("BpEndecodeInt", "BpEndecodeBaseType", "processor", "BpJsonFormatBaseType", "json_formatter")
 
 
 @rule("CA2", "C runtime: every switch over a type flag covers the flags its callers can pass, and routes each to the right handler")
@@ -208,59 +210,69 @@ def ca2(repo: Repo) -> RuleResult:
         res.bad(fd)
     domains: Dict[str, Set[str]] = {k: {c.name for c in v} for k, v in doms.items()}
     domains["BaseLeaf"] = {"Bool", "Int", "Uint", "Byte", "Enum"}
+    from .flows import c_runtime
+    from .fold import by_name, lit_value
+
     for vname, be in VARIANTS:
         try:
-            c = get_c(repo, be)
+            L = c_runtime(repo, be)
         except Inconclusive as e:
             res.unsure(f"CA2[{vname}]: {e}")
             continue
         for fname, subject, dom, kind in SWITCHES:
-            f = c.func(fname)
-            sws = [s for s in walk(f) if s.get("k") == "switch" and txt(s.tag) == subject]
-            res.inst(part="c", function=fname, variant=vname, domain=dom, switches=len(sws))
-            if len(sws) != 1:
-                # no switch: fold the dispatch (if chains, precomputed booleans) per flag value
-                for cls in sorted(domains[dom]):
-                    fl = CLASS_FLAG[cls]
-                    reached, undecided = reach_calls(f.body.stmts, {"$" + subject: flags[fl]}, c.funcs)
-                    want = _handler(kind, cls)
-                    res.inst(part="c", function=fname, variant=vname, flag=fl, reached=sorted(reached))
-                    if want and not any(any(w.rstrip("(").lstrip(".") in r for r in reached) for w in want):
-                        if undecided:
-                            res.unsure(f"CA2[{vname}]: {fname}: dispatch for {fl} cannot be folded")
-                        else:
-                            fd = Finding("CA2", C_RT, f.line, fname, f"{subject} == {fl}", f"with {subject} == {fl} ({cls}) the function reaches {sorted(reached) or 'no handler'}, expected a call of {want}: the value is skipped or handled by the wrong routine", witness=f"a {cls} in that position (e.g. an array of enums in JSON prints `[,,]`)", tag=f"c:{fname}:{fl}:fold")
-                            fd.part = "c"
-                            res.bad(fd)
+            try:
+                fn = L.func(fname)
+                paths = L.flow(None, names={}, primitives=("BpEndecodeInt", "BpEndecodeBaseType", "BpJsonFormatBaseType", "BpJsonFormatString", "BpEndecodeMessageField", "BpJsonFormatMessageField", "BpHandleIntSignAfterEndecode", "BpEncodeArrayExtensibleAhead", "BpDecodeArrayExtensibleAhead", "BpEncodeMessageExtensibleAhead", "BpDecodeMessageExtensibleAhead"), havoc_on=(), max_paths=20000).run(fn)
+            except Inconclusive as e:
+                res.unsure(f"CA2[{vname}]: {fname}: {e}")
                 continue
-            sw = sws[0]
-            covered: Dict[str, Node] = {}
-            for cs in sw.cases:
-                for v in cs.vals or []:
-                    try:
-                        nm = byval.get(int(go_src(v)))
-                    except ValueError:
-                        nm = None
-                    if nm:
-                        covered[nm] = cs
+            res.inst(part="c", function=fname, variant=vname, domain=dom, paths=len(paths))
             for cls in sorted(domains[dom]):
                 fl = CLASS_FLAG[cls]
-                if fl not in covered:
-                    fd = Finding("CA2", C_RT, sw.line, fname, f"switch ({subject})", f"flag {fl} ({cls}) can reach this switch (domain {dom}) but has no case: the value is silently skipped", witness=f"a {cls} in that position is neither encoded nor decoded / printed", tag=f"c:{fname}:{fl}")
-                    fd.part = "c"
-                    res.bad(fd)
-                    continue
-                body = " ; ".join(go_src(s.x) for s in covered[fl].body if s.k == "exprstmt")
                 want = _handler(kind, cls)
-                if want and not any(w in body for w in want):
-                    fd = Finding("CA2", C_RT, covered[fl].line, fname, body, f"flag {fl} is routed to `{body}`, expected a call of {want}", witness=f"a {cls} is processed by the wrong routine (e.g. no sign extension, or as a composite)", tag=f"c:{fname}:{fl}:handler")
-                    fd.part = "c"
-                    res.bad(fd)
-                if not any(s.k in ("break", "return") for s in covered[fl].body):
-                    fd = Finding("CA2", C_RT, covered[fl].line, fname, body, f"case {fl} falls through into the next case", tag=f"c:{fname}:{fl}:fallthrough")
+                if not want:
+                    continue
+                # a non-standard element width keeps the batch path of arrays out of the way
+                reached = _reached_handlers(paths, subject, flags[fl], lit_value, by_name)
+                res.inst(part="c", function=fname, variant=vname, flag=fl, reached=sorted(reached))
+                names = {w.rstrip("(").lstrip(".") for w in want}
+                others = reached - names
+                if not (reached & names) or others:
+                    fd = Finding("CA2", C_RT, fn.lineno, fname, f"{subject} == {fl}", f"with {subject} == {fl} ({cls}) the function reaches {sorted(reached) or 'no handler'}, expected a call of {want}: the value is skipped or handled by the wrong routine", witness=f"a {cls} in that position (e.g. an array of enums in JSON prints `[,,]`)", tag=f"c:{fname}:{fl}:fold")
                     fd.part = "c"
                     res.bad(fd)
     return res
+
+
+def show_(x: Any) -> str:
+    from .normal import show
+
+    return show(x)
+
+
+def _reached_handlers(paths: List[Any], subject: str, flagval: int, lit_value: Any, by_name: Any) -> Set[str]:
+    """Handler calls on the paths (and loop body paths) that are feasible when
+    the dispatch subject has the given flag value."""
+    vals = {subject: flagval, "descriptor.element_type.nbits": 12, "descriptor.element_type.to_flag": 0}
+    repl = by_name(vals)
+    out: Set[str] = set()
+
+    def feasible_(p_: Any) -> bool:
+        return all(lit_value(k_, t_, repl) is not False for k_, t_ in p_.guards)
+
+    def visit(p_: Any) -> None:
+        for e in p_.effects:
+            if e.kind == "call" and e.name in HANDLER_CALLS:
+                out.add(e.name)
+            elif e.kind == "loop":
+                for sp in e.sub or []:
+                    if feasible_(sp):
+                        visit(sp)
+
+    for p_ in paths:
+        if feasible_(p_):
+            visit(p_)
+    return out
 
 
 def fold_c(e: Node, env: Dict[str, int], funcs: Dict[str, Node], depth: int = 0) -> Optional[int]:
@@ -656,101 +668,137 @@ def cd4(repo: Repo) -> RuleResult:
 
 @rule("EC2", "C runtime: the contiguous array path is taken only for storage-sized integer elements (never on big-endian) and copies exactly nbits*cap bits")
 def ec2(repo: Repo) -> RuleResult:
-    res = RuleResult("EC2", floor=4)
-    flags = get_macros(repo).type_flags()
+    """BpEndecodeArray is summarised by the path engine and folded over every
+    (element flag, alias target flag, element width).  On the single feasible
+    path the elements are handled either by one contiguous copy of
+    nbits * cap bits from the array's first byte - allowed only on a
+    little-endian build for (aliases of) byte / uint / enum / int elements
+    whose width equals their storage - or by a loop of cap iterations that
+    hands element k's address (data + k * size, or a cursor starting at data
+    and advancing by size) to the element handler."""
+    from .flows import c_runtime
+    from .fold import by_name, lit_value, replace_atoms
+    from .normal import C as K, V, show
+    from .pyflow import single_atom
+
+    res = RuleResult("EC2", floor=2)
+    F = get_macros(repo).type_flags()
+    byv = {v: k for k, v in F.items()}
+    base_int = {F["BP_TYPE_BYTE"], F["BP_TYPE_UINT"], F["BP_TYPE_ENUM"], F["BP_TYPE_INT"]}
+    elem_flags = [F[k] for k in ("BP_TYPE_BOOL", "BP_TYPE_INT", "BP_TYPE_UINT", "BP_TYPE_BYTE", "BP_TYPE_ENUM", "BP_TYPE_ALIAS", "BP_TYPE_MESSAGE")]
+    alias_targets = [F[k] for k in ("BP_TYPE_BOOL", "BP_TYPE_INT", "BP_TYPE_UINT", "BP_TYPE_BYTE", "BP_TYPE_ARRAY")]
+    HANDLERS = ("BpEndecodeBaseType", "BpEndecodeInt", "processor")
     for vname, be in VARIANTS:
+        part = f"c-{vname}"
         try:
-            c = get_c(repo, be)
+            L = c_runtime(repo, be)
+            fn = L.func("BpEndecodeArray")
+            params = [a.arg for a in fn.args.args]
+            pdata = params[2] if len(params) == 3 else "data"
+            paths = L.flow(None, names={}, primitives=("BpEndecodeBaseType", "BpEndecodeInt", "BpHandleIntSignAfterEndecode", "BpEncodeArrayExtensibleAhead", "BpDecodeArrayExtensibleAhead"), havoc_on=(), max_paths=20000).run(fn)
         except Inconclusive as e:
             res.unsure(f"EC2[{vname}]: {e}")
             continue
-        f = c.func("BpEndecodeArray")
-        big = [s for s in f.body.stmts if s.k == "if" and any(x.get("k") == "for" for x in walk(s))]
-        if len(big) != 1 or big[0].orelse is None:
-            res.unsure(f"EC2[{vname}]: batch/per-element if-else not found")
-            continue
-        cond = big[0].cond
-        res.inst(part=f"c-{vname}", function="BpEndecodeArray", condition=go_src(cond))
-        if be:
-            if not (cond.k == "int" and cond.v == 0):
-                fd = Finding("EC2", C_RT, big[0].line, "BpEndecodeArray", go_src(cond), "on a big-endian build the contiguous batch copy can be taken: element bytes would go to the wire in host order", witness="uint16[2] on a big-endian host", tag="c:batch:be")
-                fd.part = "c-be"
-                res.bad(fd)
-        else:
-            # fold the condition over the finite domain (flag, to_flag, element_nbits)
-            F = flags
-            base_int = {F["BP_TYPE_BYTE"], F["BP_TYPE_UINT"], F["BP_TYPE_ENUM"], F["BP_TYPE_INT"]}
-            elem_flags = [F[k] for k in ("BP_TYPE_BOOL", "BP_TYPE_INT", "BP_TYPE_UINT", "BP_TYPE_BYTE", "BP_TYPE_ENUM", "BP_TYPE_ALIAS", "BP_TYPE_MESSAGE")]
-            alias_targets = [F[k] for k in ("BP_TYPE_BOOL", "BP_TYPE_INT", "BP_TYPE_UINT", "BP_TYPE_BYTE", "BP_TYPE_ARRAY")]
-            byv = {v: k for k, v in F.items()}
-            undecided = False
-            wrong = []
-            for fl in elem_flags:
-                for tf in (alias_targets if fl == F["BP_TYPE_ALIAS"] else [0]):
-                    for nb in list(range(1, 65)) + [128, 256]:
-                        v = fold_c(cond, {"flag": fl, "to_flag": tf, "element_nbits": nb}, c.funcs)
-                        if v is None:
-                            undecided = True
-                            break
-                        if v:
-                            leaf = tf if fl == F["BP_TYPE_ALIAS"] else fl
-                            if leaf not in base_int or nb not in (8, 16, 32, 64):
-                                wrong.append((byv.get(fl, fl), byv.get(tf, tf) if tf else "-", nb))
+        ET = "descriptor.element_type"
+        size, cap = V(f"{ET}.size"), V("descriptor.cap")
+        reported: Set[str] = set()
+
+        def bad(tag: str, msg: str, construct: str = "", witness: str = "") -> None:
+            if tag in reported:
+                return
+            reported.add(tag)
+            fd = Finding("EC2", C_RT, fn.lineno, "BpEndecodeArray", construct, msg, witness=witness, tag=tag)
+            fd.part = part
+            res.bad(fd)
+
+        def addr_ok(arg: Any, lp: Any, body: Any) -> bool:
+            kvar = lp.node.target.id if hasattr(lp.node, "target") and hasattr(lp.node.target, "id") else "k"
+            if arg == V(pdata) + V(kvar) * size:
+                return True
+            aa = single_atom(arg)
+            if aa is not None and aa[0] == "var" and aa[1].endswith(lp.op):
+                nm = aa[1][: -len(lp.op)]
+                init, end = lp.kw.get(nm), body.env.get(nm)
+                return init is not None and init == V(pdata) and end is not None and end - arg == size
+            return False
+
+        points = batch_points = 0
+        undecided = None
+        for fl in elem_flags:
+            for tf in (alias_targets if fl == F["BP_TYPE_ALIAS"] else [0]):
+                for nb in (1, 2, 7, 8, 9, 12, 15, 16, 17, 24, 31, 32, 33, 48, 63, 64, 128):
+                    repl = by_name({f"{ET}.flag": fl, f"{ET}.to_flag": tf, f"{ET}.nbits": nb, "descriptor.extensible": 0})
+                    feas = []
+                    for p_ in paths:
+                        vals = [lit_value(k_, t_, repl) for k_, t_ in p_.guards]
+                        if any(v is False for v in vals):
+                            continue
+                        for (k_, t_), v in zip(p_.guards, vals):
+                            if v is None and any(ET in show(x) for x in k_[1:] if hasattr(x, "terms")):
+                                undecided = show_lit_c(k_, t_)
+                        feas.append(p_)
+                    if undecided:
+                        break
+                    points += 1
+                    leaf = tf if fl == F["BP_TYPE_ALIAS"] else fl
+                    for p_ in feas:
+                        tops = [e for e in p_.effects if e.kind == "call" and e.name == "BpEndecodeBaseType"]
+                        loops = [e for e in p_.effects if e.kind == "loop"]
+                        elem_loops = []
+                        for lp in loops:
+                            bodies = [sp for sp in (lp.sub or []) if all(lit_value(k_, t_, repl) is not False for k_, t_ in sp.guards)]
+                            if any(e.kind == "call" and e.name in HANDLERS for sp in bodies for e in sp.effects):
+                                elem_loops.append((lp, bodies))
+                        if tops and not elem_loops:
+                            batch_points += 1
+                            if be:
+                                bad("c:batch:be", "on a big-endian build the contiguous batch copy can be taken: element bytes would go to the wire in host order", construct=f"flag={byv.get(fl, fl)}, nbits={nb}", witness="uint16[2] on a big-endian host")
+                            elif leaf not in base_int or nb not in (8, 16, 32, 64):
+                                bad("c:batch:condition", f"the contiguous batch copy is taken for element flag={byv.get(fl, fl)}, to_flag={byv.get(tf, tf) if tf else '-'}, element_nbits={nb}: that memory is not a packed run of storage-sized integers", construct=f"path under {p_.guard_text()}", witness="type Flags = bool[8]; Flags[3] f  (an alias of an array whose row is 8 bits): the bools' storage bytes are bit-copied as if packed; uint24[2]: padding bits of each element go to the wire")
+                            if len(tops) != 1 or replace_atoms(tops[0].args[0], repl) != K(nb) * cap or tops[0].args[2] != V(pdata):
+                                bad(f"c:batch:copy:{vname}", "the batch copy is not BpEndecodeBaseType(element_nbits * cap, ctx, data)", construct=repr(tops[0]) if tops else "", witness="uint8[4]: wrong number of bits copied")
+                        elif len(elem_loops) == 1 and not tops:
+                            lp, bodies = elem_loops[0]
+                            it = lp.args[0] if lp.args else None
+                            if it is None or show(it) != "range(descriptor.cap)":
+                                bad(f"c:elements:{vname}", f"the per-element loop runs over `{show(it) if it is not None else None}`, not k = 0..cap-1", construct=show(it) if it is not None else "", witness="uint3[4]")
+                                continue
+                            for sp in bodies:
+                                hs = [e for e in sp.effects if e.kind == "call" and e.name in HANDLERS]
+                                if len(hs) != 1:
+                                    bad(f"c:elements:{vname}", f"an element is handled by {len(hs)} calls in one iteration", construct=str([repr(h) for h in hs]), witness="uint3[4]")
+                                    continue
+                                h = hs[0]
+                                addr = h.args[0] if h.name == "processor" else h.args[-1]
+                                if not addr_ok(addr, lp, sp):
+                                    bad(f"c:elements:{vname}", "the per-element loop does not hand element k's address (data + k * element size) to the handler", construct=repr(h), witness="uint3[4]: every iteration processes element 0 / a wrong stride")
+                                if h.name == "BpEndecodeBaseType" and replace_atoms(h.args[0], repl) != K(nb):
+                                    bad(f"c:elements:nbits:{vname}", "an element is not processed with the element's bit width", construct=repr(h))
+                                if h.name == "BpEndecodeInt" and (h.args[0] != size or replace_atoms(h.args[1], repl) != K(nb)):
+                                    bad(f"c:elements:nbits:{vname}", "a signed element is not processed with (element size, element width)", construct=repr(h))
+                        elif not tops and not elem_loops:
+                            pass  # a flag without handler here: CA2 judges coverage
+                        else:
+                            bad(f"c:elements:{vname}", "elements are handled both by a contiguous copy and by an element loop on one path", construct=f"flag={byv.get(fl, fl)}, nbits={nb}")
+                if undecided:
+                    break
             if undecided:
-                res.unsure(f"EC2[le]: batch condition `{go_src(cond)}` cannot be folded over (flag, to_flag, element_nbits)")
-            elif wrong:
-                ex = wrong[0]
-                fd = Finding("EC2", C_RT, big[0].line, "BpEndecodeArray", go_src(cond), f"the contiguous batch copy is taken for element flag={ex[0]}, to_flag={ex[1]}, element_nbits={ex[2]} ({len(wrong)} such combinations): that memory is not a packed run of storage-sized integers", witness="type Flags = bool[8]; Flags[3] f  (an alias of an array whose row is 8 bits): the bools' storage bytes are bit-copied as if packed", tag="c:batch:condition")
-                fd.part = "c-le"
-                res.bad(fd)
-            # helper predicates
-            ns = c.func("BpIsNbitsStandard")
-            lits = sorted(x.r.v for x in walk(ns) if x.get("k") == "bin" and x.get("op") == "==" and x.r.k == "int")
-            ors = all(x.op in ("||", "==") for x in walk(ns) if x.get("k") == "bin")
-            res.inst(part="c-le", function="BpIsNbitsStandard", values=lits)
-            if not ors or not set(lits) <= {8, 16, 32, 64}:
-                fd = Finding("EC2", C_RT, ns.line, "BpIsNbitsStandard", str(lits), f"element widths {sorted(set(lits) - {8,16,32,64})} take the contiguous path although their storage is wider than the width: padding bits of each element go to the wire", witness="uint24[2]", tag="c:batch:standard")
-                fd.part = "c-le"
-                res.bad(fd)
-            bi = c.func("BpIsBaseIntegerType")
-            fl = sorted(x.r.v for x in walk(bi) if x.get("k") == "bin" and x.get("op") == "==" and x.r.k == "int")
-            allowed = {flags[k] for k in ("BP_TYPE_BYTE", "BP_TYPE_UINT", "BP_TYPE_ENUM", "BP_TYPE_INT")}
-            res.inst(part="c-le", function="BpIsBaseIntegerType", flags=fl)
-            if not set(fl) <= allowed:
-                byv = {v: k for k, v in flags.items()}
-                fd = Finding("EC2", C_RT, bi.line, "BpIsBaseIntegerType", str(fl), f"flags {[byv.get(x, x) for x in sorted(set(fl) - allowed)]} take the contiguous path but are not plain integers in memory", witness="an array of messages / bools of width 8", tag="c:batch:flags")
-                fd.part = "c-le"
-                res.bad(fd)
-        # batch body
-        body = big[0].body.stmts
-        cs = [x for x in body if x.k == "exprstmt" and go_src(x.x).startswith("BpEndecodeBaseType(")]
-        ok = len(cs) == 1 and txt(cs[0].x.args[0]) in ("element_nbits*cap", "cap*element_nbits") and txt(cs[0].x.args[2]) == "data_ptr"
-        if not ok:
-            fd = Finding("EC2", C_RT, big[0].line, "BpEndecodeArray", go_src(cs[0].x) if cs else "", "the batch copy is not BpEndecodeBaseType(element_nbits * cap, ctx, data_ptr)", witness="uint8[4]: wrong number of bits copied", tag=f"c:batch:copy:{vname}")
-            fd.part = f"c-{vname}"
-            res.bad(fd)
-        sign = [x for x in body if x.k == "if" and any(go_src(y.f) == "BpHandleIntSignAfterEndecode" for y in calls(x))]
-        if len(sign) != 1 or txt(sign[0].cond) not in (f"flag=={flags['BP_TYPE_INT']}||to_flag=={flags['BP_TYPE_INT']}",):
-            fd = Finding("EC2", C_RT, big[0].line, "BpEndecodeArray", go_src(sign[0].cond) if sign else "", "after a batch copy the sign step is not run for (alias of) int elements", tag=f"c:batch:sign:{vname}")
-            fd.part = f"c-{vname}"
-            res.bad(fd)
-        # per-element loop advances data_ptr by element_size, cap iterations
-        loops = [x for x in big[0].orelse.stmts if x.k == "for"] if big[0].orelse.k == "block" else []
-        ok = len(loops) == 1 and go_src(loops[0].cond) == "k < cap" and any(s.k == "assign" and go_src(s.lhs[0]) == "data_ptr" and s.op == "+=" and go_src(s.rhs[0]) == "element_size" for s in loops[0].body.stmts)
-        res.inst(part=f"c-{vname}", function="BpEndecodeArray", element_loop=ok)
-        if not ok:
-            fd = Finding("EC2", C_RT, big[0].line, "BpEndecodeArray", "", "the per-element loop does not run k = 0..cap-1 advancing data_ptr by element_size", witness="uint3[4]", tag=f"c:elements:{vname}")
-            fd.part = f"c-{vname}"
-            res.bad(fd)
-        # locals come from the descriptor
-        want = {"cap": "descriptor.cap", "element_nbits": "descriptor.element_type.nbits", "element_size": "descriptor.element_type.size", "flag": "element_type.flag", "to_flag": "element_type.to_flag"}
-        for s in f.body.stmts:
-            if s.k == "assign" and s.op == ":=" and go_src(s.lhs[0]) in want:
-                if txt(s.rhs[0]) != want[go_src(s.lhs[0])]:
-                    fd = Finding("EC2", C_RT, s.line, "BpEndecodeArray", go_src(s.rhs[0]), f"`{go_src(s.lhs[0])}` is not read from {want[go_src(s.lhs[0])]}", tag=f"c:locals:{go_src(s.lhs[0])}:{vname}")
-                    fd.part = f"c-{vname}"
-                    res.bad(fd)
+                break
+        if undecided:
+            res.unsure(f"EC2[{vname}]: condition `{undecided}` cannot be folded over (flag, to_flag, element_nbits)")
+        res.inst(part=part, function="BpEndecodeArray", points=points, batch_points=batch_points, paths=len(paths))
+        if not be and not undecided and batch_points == 0:
+            res.note("le: the contiguous path is never taken (allowed: it is an optimisation)")
     return res
+
+
+def show_lit_c(k: Any, t: bool) -> str:
+    from .pyflow import show_lit
+
+    try:
+        return show_lit(k, t)
+    except Exception:
+        return str(k)[:100]
 
 
 # --------------------------------------------------------------------------
@@ -1144,6 +1192,29 @@ def ec4(repo: Repo) -> RuleResult:
         k = V(kvar)
         it = lp.args[0] if lp.args else None
         ok_loop = it == pcall("range", size)
+
+        def address(base: Any, idx: Any, body: Any) -> Optional[Any]:
+            """byte address `base + idx` as a function of the iteration number k:
+            loop-carried cursors (p@Ln) are replaced by init + k * step"""
+            from .fold import replace_atoms
+            from .pyflow import _atoms_of
+
+            if isinstance(base, str):
+                base = V(base)
+            out = base + idx
+            for a in _atoms_of(out):
+                if a[0] == "var" and a[1].endswith(lp.op):
+                    nm = a[1][: -len(lp.op)]
+                    init, end = lp.kw.get(nm), body.env.get(nm)
+                    if init is None or end is None:
+                        return None
+                    step = (end - V(a[1])).const_value()
+                    if step is None:
+                        return None
+                    out = out.subst(a[1], init + k.scale(step))
+            return out
+
+        want_native = V(pdata) + size - k - K(1)
         ok_body = True
         for sp in lp.sub or []:
             sts = [e for e in sp.effects if e.kind == "store"]
@@ -1153,10 +1224,16 @@ def ec4(repo: Repo) -> RuleResult:
             s_ = sts[0]
             idx, val = s_.args
             va = single_atom(val)
+            if va is None or va[0] != "load" or s_.op != "=":
+                ok_body = False
+                continue
+            dst_addr = address(s_.recv, idx, sp) if s_.recv is not None else None
+            src_addr = address(va[1], va[2], sp)
+            stage_k = stage + k
             if enc:
-                ok_body = ok_body and s_.recv == stage and idx == k and va is not None and va[0] == "load" and va[1] == pdata and va[2] == size - k - K(1) and s_.op == "="
+                ok_body = ok_body and dst_addr == stage_k and src_addr == want_native
             else:
-                ok_body = ok_body and s_.recv is not None and show(s_.recv) == pdata and idx == size - k - K(1) and va is not None and va[0] == "load" and va[1] == stage and va[2] == k and s_.op == "="
+                ok_body = ok_body and dst_addr == want_native and src_addr == stage_k
         if not ok_loop:
             a_ = single_atom(it) if it is not None else None
             if a_ is not None and a_[0] == "call" and a_[1] == "range":
